@@ -36,6 +36,8 @@ impl PathBuf {
     #[verifier::external_body] pub fn to_path_buf(&self) -> (r: PathBuf) ensures path_id(&r) == path_id(self) { unimplemented!() }
     #[verifier::external_body] pub fn join<A: PathArg>(&self, s: A) -> (r: PathBuf) ensures path_id(&r) == joined(path_id(self), s) { unimplemented!() }
     #[verifier::external_body] pub fn is_relative(&self) -> (r: bool) { unimplemented!() }
+    #[verifier::external_body] pub fn exists(&self) -> (r: bool) { unimplemented!() }
+    #[verifier::external_body] pub fn is_file(&self) -> (r: bool) ensures r ==> fs_readable(path_id(self)) { unimplemented!() }
 }
 
 // ---- the snapshot -------------------------------------------------------------------------------------
@@ -67,7 +69,7 @@ impl From<IoError> for AnyhowError { #[verifier::external_body] fn from(e: IoErr
 pub struct Metadata { pub len: u64 }
 impl Metadata { pub fn len(&self) -> (r: u64) ensures r == self.len { self.len } }
 /// an open file: which file, and whether it was opened for writing
-pub struct File { pub id: Ghost<int>, pub for_write: Ghost<bool> }
+pub struct File { pub id: Ghost<int>, pub for_write: Ghost<bool>, pub truncated: Ghost<bool> }
 impl File {
     /// fs_err::File::open — read-only. Ok iff readable; NotFound is one way of not being readable.
     #[verifier::external_body]
@@ -84,6 +86,8 @@ impl File {
     pub fn write_all(&mut self, content: &[u8]) -> (r: Result<(), IoError>)
         requires
             old(self).for_write@,
+            // a byte write must start from an empty file, else a stale tail of the old content survives it
+            old(self).truncated@,
             writes_allowed(),
             !up_to_date(old(self).id@, content@),
     { unimplemented!() }
@@ -101,9 +105,23 @@ pub mod fs_err {
         #[verifier::external_body]
         pub fn open<A: PathRef>(&self, path: A) -> (r: Result<File, IoError>)
             requires (self.write || self.truncate || self.create) ==> writes_allowed(),
-            ensures r matches Ok(f) ==> f.id@ == path.pid() && f.for_write@ == self.write
+            ensures r matches Ok(f) ==> f.id@ == path.pid() && f.for_write@ == self.write && f.truncated@ == self.truncate
         { unimplemented!() }
     }
+    /// fs_err::write / std::fs::write: create-or-truncate and write — a modifying primitive
+    pub trait Bytes: Sized {}
+    impl Bytes for String {}
+    impl Bytes for &str {}
+    impl Bytes for &[u8] {}
+    impl Bytes for Vec<u8> {}
+    #[verifier::external_body]
+    pub fn write<A: PathRef, C: Bytes>(path: A, contents: C) -> (r: Result<(), IoError>)
+        requires writes_allowed()
+    { unimplemented!() }
+    #[verifier::external_body]
+    pub fn remove_file<A: PathRef>(path: A) -> (r: Result<(), IoError>)
+        requires writes_allowed()
+    { unimplemented!() }
     /// fs_err::copy overwrites the destination
     #[verifier::external_body]
     pub fn copy(from: &Path, to: &Path) -> (r: Result<u64, IoError>)
@@ -276,3 +294,36 @@ impl BufReader {
 /// `&buffer[..n]`
 #[verifier::external_body]
 pub fn prefix_of(buf: &[u8; 8192], n: usize) -> (r: &[u8]) requires n <= 8192 ensures r@ == buf@.subrange(0, n as int) { unimplemented!() }
+
+// ---- toml_edit, for GeneratedApp::persist_manifest (pure document manipulation) ---------------------------
+pub mod toml_edit { use super::*;
+    #[verifier::external_body] pub struct DocumentMut { _p: u8 }
+    #[verifier::external_body] pub struct Item { _p: u8 }
+    #[verifier::external_body] pub struct Table { _p: u8 }
+    #[verifier::external_body] pub struct TomlError { _p: u8 }
+    impl DocumentMut {
+        #[verifier::external_body] pub fn new() -> (r: Self) { unimplemented!() }
+        #[verifier::external_body] pub fn as_table_mut(&mut self) -> (r: &mut Table) { unimplemented!() }
+        /// Display for DocumentMut
+        #[verifier::external_body] pub fn to_string(&self) -> (r: String) { unimplemented!() }
+    }
+    impl Table { #[verifier::external_body] pub fn insert(&mut self, k: &str, v: Item) -> (r: Option<Item>) { unimplemented!() } }
+    #[verifier::external_body] pub fn table() -> (r: Item) { unimplemented!() }
+    #[verifier::external_body] pub fn value(s: &str) -> (r: Item) { unimplemented!() }
+    impl core::ops::Index<&str> for Item { type Output = Item; #[verifier::external_body] fn index(&self, k: &str) -> &Item { unimplemented!() } }
+    impl core::ops::IndexMut<&str> for Item { #[verifier::external_body] fn index_mut(&mut self, k: &str) -> &mut Item { unimplemented!() } }
+    impl vstd::std_specs::core::IndexSpecImpl<&str> for Item { open spec fn index_req(&self, k: &&str) -> bool { true } }
+    impl core::str::FromStr for DocumentMut { type Err = TomlError; #[verifier::external_body] fn from_str(s: &str) -> (r: Result<Self, TomlError>) { unimplemented!() } }
+    impl From<TomlError> for AnyhowError { #[verifier::external_body] fn from(e: TomlError) -> (r: Self) { unimplemented!() } }
+}
+#[verifier::external_trait_specification]
+pub trait ExFromStr: Sized { type ExternalTraitSpecificationFor: core::str::FromStr; type Err; }
+pub assume_specification<F: core::str::FromStr>[str::parse::<F>](s: &str) -> (r: Result<F, <F as core::str::FromStr>::Err>);
+/// fs_err::read_to_string: read-only
+pub mod fs_err_read { use super::*;
+    #[verifier::external_body] pub fn read_to_string(p: &PathBuf) -> (r: Result<String, IoError>) { unimplemented!() }
+}
+impl GeneratedManifest {
+    /// sets dependencies and edition of a TOML document in memory (iterator adapters + serde: ASSUMED pure)
+    #[verifier::external_body] pub fn overwrite(&self, m: &mut toml_edit::DocumentMut) { unimplemented!() }
+}
